@@ -1,5 +1,382 @@
-use crate::mc::Eng;
+//! C19 — feature configuration changes only whether units are checked, never the numbers.
+//! This engine is compiled into each of the six configurations; it writes canonical traces of
+//! well-dimensioned workloads (one file per section) which driver/c19_cfg.py compares across
+//! builds, and - in the unchecked builds - runs the ill-dimensioned section.
+use crate::env::*;
+use crate::mc::*;
 use crate::Ctx;
+use rrtk::*;
+use std::fmt::Write as _;
+
+/// f32 compared "as values": -0 and +0 are one value, all NaNs are one value.
+pub fn canon(v: f32) -> u32 {
+    if v.is_nan() {
+        0x7fc0_0000
+    } else if v == 0.0 {
+        0
+    } else {
+        v.to_bits()
+    }
+}
+fn obs_words(o: &Obs, payload_floats: usize) -> String {
+    let mut s = format!("{}@{}", o.tag, if o.tag == 1 { o.time } else { 0 });
+    for i in 0..4 {
+        if i < payload_floats {
+            let _ = write!(s, " f:{:08x}", canon(o.f(i)));
+        } else if i < 3 {
+            let _ = write!(s, " {}", o.bits[i]);
+        }
+    }
+    s
+}
+
+struct Section {
+    name: String,
+    lines: Vec<String>,
+}
+impl Section {
+    fn new(name: &str) -> Section {
+        Section { name: name.to_string(), lines: Vec::new() }
+    }
+    fn case<F: FnOnce() -> String>(&mut self, label: String, f: F) {
+        let r = guard(f);
+        self.lines.push(format!("{} => {}", label, r.unwrap_or_else(|m| format!("PANIC {}", m.replace('\n', " ")))));
+    }
+}
+
+fn sections() -> Vec<Section> {
+    let mut out = Vec::new();
+    // ---- quantities: matching units for +,-,cmp; all grid pairs for *,/
+    let mut s = Section::new("quantity-arithmetic");
+    let vals = [0.0f32, -0.0, 1.0, -1.5, 0.1, 7e6, -2.5e-7, 3.0];
+    for m in -3..=3i8 {
+        for sx in -3..=3i8 {
+            let u = Unit::new(m, sx);
+            for &x in &vals {
+                for &y in &vals {
+                    s.case(format!("({},{}) {:?} {:?}", m, sx, x, y), || {
+                        let (a, b) = (Quantity::new(x, u), Quantity::new(y, u));
+                        let mut c = a;
+                        c += b;
+                        let mut d = a;
+                        d -= b;
+                        let w = Unit::new(sx, m);
+                        let (p, q) = (a * Quantity::new(y, w), a / Quantity::new(y, w));
+                        format!("f:{:08x} f:{:08x} f:{:08x} f:{:08x} f:{:08x} f:{:08x} f:{:08x} f:{:08x} {:?} {}", canon((a + b).value), canon((a - b).value), canon(c.value), canon(d.value), canon(p.value), canon(q.value), canon((-a).value), canon(a.abs().value), a.partial_cmp(&b), a == b)
+                    });
+                }
+            }
+        }
+    }
+    out.push(s);
+    // ---- time / integer conversions and mixed operators
+    let mut s = Section::new("time-conversions");
+    for &t in &[0i64, 1, -1, 999, 1_000_000_000, -2_500_000_000, 16_777_217, 30_000_001_024, (1 << 53) + 1, -(1 << 62), i64::MAX, i64::MIN] {
+        s.case(format!("t={}", t), || {
+            let q = Quantity::from(Time(t));
+            let back = Time::try_from(q).map(|x| x.0);
+            let dq = Quantity::from(DimensionlessInteger(t));
+            let mm = Quantity::new(2.5, MILLIMETER_PER_SECOND) * Time(t);
+            let dd = Quantity::new(2.5, MILLIMETER) / Time(t);
+            let ss = Quantity::new(2.5, SECOND) + Time(t);
+            format!("f:{:08x} {:?} f:{:08x} f:{:08x} f:{:08x} f:{:08x}", canon(q.value), back, canon(dq.value), canon(mm.value), canon(dd.value), canon(ss.value))
+        });
+    }
+    for &v in &[0.0f32, 1.5, -2.25, 1e-9, 9e9, -9e9, 0.1, 123456.79] {
+        s.case(format!("v={:?}", v), || format!("{:?} {:?}", Time::try_from(Quantity::new(v, SECOND)).map(|x| x.0), DimensionlessInteger::try_from(Quantity::new(v, DIMENSIONLESS)).map(|x| x.0)));
+    }
+    out.push(s);
+    // ---- state / command
+    let mut s = Section::new("state-command");
+    let comp = [0.0f32, -0.0, 1.0, -2.0, 0.5, 1024.0, 0.1, -7.3];
+    for &p in &comp {
+        for &v in &comp {
+            for &a in &comp {
+                for &dt in &[-100_000 * S, -S / 2, 0, 1, S / 2, 2 * S, 100_000 * S] {
+                    s.case(format!("({:?},{:?},{:?}) dt={}", p, v, a, dt), || {
+                        let mut st = State::new_raw(p, v, a);
+                        st.update(Time(dt));
+                        let c = Command::from(State::new_raw(p, v, a));
+                        let mut s2 = State::new_raw(p, v, a);
+                        let r1 = s2.set_constant_velocity(Quantity::new(v, MILLIMETER_PER_SECOND));
+                        let mut s3 = State::new_raw(p, v, a);
+                        let r2 = s3.set_constant_position(Quantity::new(a, MILLIMETER));
+                        let mut s4 = State::new_raw(p, v, a);
+                        let r3 = s4.set_constant_acceleration(Quantity::new(p, MILLIMETER_PER_SECOND_SQUARED));
+                        let st5 = State::new(Quantity::new(p, MILLIMETER), Quantity::new(v, MILLIMETER_PER_SECOND), Quantity::new(a, MILLIMETER_PER_SECOND_SQUARED));
+                        format!(
+                            "f:{:08x} f:{:08x} f:{:08x} {} f:{:08x} {:?} f:{:08x} f:{:08x} {:?} f:{:08x} {:?} f:{:08x} f:{:08x}",
+                            canon(st.position), canon(st.velocity), canon(st.acceleration),
+                            match c { Command::Position(_) => 1, Command::Velocity(_) => 2, Command::Acceleration(_) => 3 },
+                            canon(f32::from(c)), r1, canon(s2.velocity), canon(s2.acceleration), r2, canon(s3.position), r3, canon(s4.acceleration), canon(st5.velocity)
+                        )
+                    });
+                }
+            }
+        }
+    }
+    out.push(s);
+    // ---- PID controller
+    let mut s = Section::new("pid");
+    for (name, syms, depth) in [("exact", crate::c04::exact_syms(), 3usize), ("broad", crate::c04::broad_syms(), 3)] {
+        let n = ipow(syms.len() as u64, depth);
+        let mut idx = vec![0usize; depth];
+        for gi in 0..4 {
+            for code in 0..n {
+                decode(code, syms.len() as u64, &mut idx);
+                let h: Vec<crate::c04::Ev> = idx.iter().map(|&i| syms[i]).collect();
+                s.case(format!("{} g{} {}", name, gi, code), || crate::c04::run_real(crate::c04::GAINS[gi], &h, 10 * S, 1.0).iter().map(|(u, o)| format!("{}:{}", u, obs_words(o, 1))).collect::<Vec<_>>().join(" | "));
+            }
+        }
+    }
+    out.push(s);
+    // ---- stateful streams (all 15 kinds); the EWMA kinds go to a powf section
+    let mut s = Section::new("stateful-streams");
+    let mut sp = Section::new("powf:ewma-stateful");
+    {
+        let depth = 4;
+        let n = ipow(5, depth);
+        let mut idx = vec![0usize; depth];
+        let times: Vec<i64> = (0..depth).map(|k| (k as i64 + 1) * S).collect();
+        for kind in 0..15 {
+            for code in 0..n {
+                decode(code, 5, &mut idx);
+                let h: Vec<crate::c05::Ev> = idx.iter().map(|&i| crate::c05::SYMS[i]).collect();
+                let target = if kind == 4 || kind == 5 { &mut sp } else { &mut s };
+                target.case(format!("{} {}", crate::c05::KIND_NAMES[kind], code), || {
+                    let mut imp = false;
+                    crate::c05::run_full(kind, &h, &times, &mut imp).iter().map(|(u, o)| format!("{}:{}", u, obs_words(o, 3))).collect::<Vec<_>>().join(" | ")
+                });
+            }
+        }
+    }
+    out.push(s);
+    out.push(sp);
+    // ---- integral / derivative / to-state
+    let mut s = Section::new("calculus-streams");
+    for (name, syms, depth) in [("exact", crate::c10::exact_syms(), 3usize), ("broad", crate::c10::broad_syms(), 3)] {
+        let n = ipow(syms.len() as u64, depth);
+        let mut idx = vec![0usize; depth];
+        for kind in 0..5 {
+            for code in 0..n {
+                decode(code, syms.len() as u64, &mut idx);
+                let h: Vec<crate::c10::Ev> = idx.iter().map(|&i| syms[i]).collect();
+                s.case(format!("{} {} {}", name, crate::c10::KINDS[kind], code), || crate::c10::run_real(kind, &h, -3 * S, crate::c10::natural_unit(kind)).iter().map(|(u, o)| format!("{}:{}", u, obs_words(o, 3))).collect::<Vec<_>>().join(" | "));
+            }
+        }
+    }
+    out.push(s);
+    // ---- command PID
+    let mut s = Section::new("command-pid");
+    {
+        let syms = crate::c11::syms(false);
+        let depth = 3;
+        let n = ipow(syms.len() as u64, depth);
+        let mut idx = vec![0usize; depth];
+        for init in [crate::c11::TARGETS[0], crate::c11::TARGETS[2], crate::c11::TARGETS[4]] {
+            for code in 0..n {
+                decode(code, syms.len() as u64, &mut idx);
+                let h: Vec<crate::c11::Ev> = idx.iter().map(|&i| syms[i]).collect();
+                s.case(format!("{:?} {}", init, code), || crate::c11::run_real(init, false, &h, 5 * S).iter().map(|(u, o)| format!("{}:{}", u, obs_words(o, 1))).collect::<Vec<_>>().join(" | "));
+            }
+        }
+    }
+    out.push(s);
+    // ---- filters
+    let mut s = Section::new("moving-average");
+    let mut sp = Section::new("powf:ewma");
+    {
+        let syms = crate::c12::syms();
+        let depth = 3;
+        let n = ipow(syms.len() as u64, depth);
+        let mut idx = vec![0usize; depth];
+        for cfg in crate::c12::cfgs() {
+            let target = if matches!(cfg, crate::c12::Cfg::Ewma(_)) { &mut sp } else { &mut s };
+            for code in 0..n {
+                decode(code, syms.len() as u64, &mut idx);
+                let h: Vec<crate::c12::Ev> = idx.iter().map(|&i| syms[i]).collect();
+                target.case(format!("{:?} {}", cfg, code), || crate::c12::run_real(cfg, &h, 7 * S).iter().map(|(u, o, u2, o2)| format!("{}:{} {}:{}", u, obs_words(o, 1), u2, obs_words(o2, 1))).collect::<Vec<_>>().join(" | "));
+            }
+        }
+    }
+    out.push(s);
+    out.push(sp);
+    // ---- exponent stream
+    let mut sp = Section::new("powf:exponent");
+    for &b in &[0.0f32, 1.0, 2.0, 0.5, 10.0, 0.1] {
+        for &x in &[0.0f32, 1.0, -1.0, 2.0, 0.5, -2.5, 3.0] {
+            sp.case(format!("{:?}^{:?}", b, x), || {
+                let g1 = rc(Scr::<f32>::new(Ok(Some(Datum::new(Time(1), b)))));
+                let g2 = rc(Scr::<f32>::new(Ok(Some(Datum::new(Time(2), x)))));
+                let e = rrtk::streams::math::ExponentStream::new(rf(&g1), rf(&g2));
+                obs_words(&obs(&e.get()), 1)
+            });
+        }
+    }
+    out.push(sp);
+    // ---- motion profiles
+    let mut s = Section::new("motion-profiles");
+    for (i, spec) in crate::c06::specs(false).iter().enumerate() {
+        if i % 7 != 0 {
+            continue;
+        }
+        s.case(format!("{:?}", spec), || {
+            let mp = match guard(|| crate::c06::spec_build(spec)) {
+                Ok(mp) => mp,
+                Err(_) => return "REJECTED-BY-CONSTRUCTOR".to_string(),
+            };
+            let ts = crate::c06::debug_times(&mp).unwrap_or([0, 0, 0]);
+            let mut w = format!("{:?}", ts);
+            for t in crate::c06::query_times(ts) {
+                let _ = write!(w, " {:?}", crate::c06::sample(&mp, t).words());
+            }
+            w
+        });
+    }
+    out.push(s);
+    // ---- devices
+    let mut s = Section::new("devices");
+    {
+        use crate::c08::{run_rounds, Kind, Mode, NOPT};
+        let kinds = [Kind::Invert, Kind::Gear(-2.0), Kind::Gear(100.0), Kind::GearQ(0.5), Kind::Axle(2), Kind::Axle(3), Kind::Diff(0), Kind::Diff(2), Kind::Diff(3)];
+        for kind in kinds {
+            let n = kind.n();
+            let per_round = ipow(NOPT as u64, n);
+            let depth = if n == 2 { 2 } else { 1 };
+            let total = ipow(per_round, depth);
+            let mut codes = vec![0usize; depth];
+            for mask in [0u32, (1 << n) - 1] {
+                for mode in [Mode::State, Mode::Command] {
+                    for c in 0..total {
+                        decode(c, per_round, &mut codes);
+                        let rounds: Vec<Vec<usize>> = codes.iter().map(|&x| { let mut o = vec![0usize; n]; decode(x as u64, NOPT as u64, &mut o); o }).collect();
+                        s.case(format!("{:?} {} {:?} {}", kind, mask, mode, c), || format!("{:x}", h64(&run_rounds(kind, mask, &rounds, mode).iter().map(|r| r.canon_words()).collect::<Vec<_>>())));
+                    }
+                }
+            }
+        }
+    }
+    out.push(s);
+    out
+}
+
+/// Unchecked builds: no unit mismatch ever panics or is rejected; values are plain f32 arithmetic.
+#[cfg(not(feature = "dimcheck"))]
+fn ill_dimensioned(e: &mut Eng) {
+    use rrtk::streams::converters::*;
+    for m1 in -3..=3i8 {
+        for s1 in -3..=3i8 {
+            for m2 in -3..=3i8 {
+                for s2 in -3..=3i8 {
+                    e.executions += 1;
+                    e.states += 1;
+                    e.transitions += 7;
+                    e.checks += 1;
+                    if (m1, s1) != (m2, s2) {
+                        e.nontrivial += 1;
+                    }
+                    let (a, b) = (Quantity::new(1.5, Unit::new(m1, s1)), Quantity::new(-0.25, Unit::new(m2, s2)));
+                    let r = guard(|| {
+                        let mut c = a;
+                        c += b;
+                        let mut d = a;
+                        d -= b;
+                        let _ = Unit::new(m1, s1) + Unit::new(m2, s2);
+                        ((a + b).value, (a - b).value, c.value, d.value, a.partial_cmp(&b), a < b, a > b)
+                    });
+                    match r {
+                        Ok((x, y, z, w, o, lt, gt)) => {
+                            if x != 1.25 || y != 1.75 || z != 1.25 || w != 1.75 || o != Some(core::cmp::Ordering::Greater) || lt || !gt {
+                                e.violation("unchecked:quantity-op-value", 1, || format!("units ({},{}) and ({},{}): results {:?}", m1, s1, m2, s2, (x, y, z, w, o, lt, gt)));
+                            }
+                        }
+                        Err(msg) => e.violation("unchecked:quantity-op-panicked", 1, || format!("units ({},{}) and ({},{}): {}", m1, s1, m2, s2, msg)),
+                    }
+                }
+            }
+            // setters, constructors, conversions with an arbitrary unit
+            let u = Unit::new(m1, s1);
+            let q = Quantity::new(4.5, u);
+            e.executions += 1;
+            e.checks += 1;
+            let r = guard(|| {
+                let mut st = State::new_raw(1.0, 2.0, 3.0);
+                let r1 = st.set_constant_acceleration(q);
+                let a = st;
+                let r2 = st.set_constant_velocity(q);
+                let b = st;
+                let r3 = st.set_constant_position(q);
+                let c = st;
+                let n = State::new(q, q, q);
+                let t = Time::try_from(q).map(|x| x.0);
+                let d = DimensionlessInteger::try_from(q).map(|x| x.0);
+                let g = rrtk::devices::GearTrain::<E>::with_ratio(q);
+                let _ = g;
+                (r1, a, r2, b, r3, c, n, t, d)
+            });
+            match r {
+                Ok((r1, a, r2, b, r3, c, n, t, d)) => {
+                    let ok = r1.is_ok() && a == State::new_raw(1.0, 2.0, 4.5) && r2.is_ok() && b == State::new_raw(1.0, 4.5, 0.0) && r3.is_ok() && c == State::new_raw(4.5, 0.0, 0.0) && n == State::new_raw(4.5, 4.5, 4.5) && t == Ok((4.5f32 * 1_000_000_000.0f32) as i64) && d == Ok(4);
+                    if !ok {
+                        e.violation("unchecked:rejected-or-wrong", 1, || format!("unit ({},{}): setters {:?} {:?} {:?} states {:?} {:?} {:?} new {:?} time {:?} int {:?}", m1, s1, r1, r2, r3, a, b, c, n, t, d));
+                    }
+                }
+                Err(msg) => e.violation("unchecked:panicked", 1, || format!("unit ({},{}): {}", m1, s1, msg)),
+            }
+            // to-state converters accept any unit
+            for kind in 2..5 {
+                e.executions += 1;
+                let h = [crate::c10::Ev::P(S, 1.0), crate::c10::Ev::P(S, 3.0), crate::c10::Ev::P(2 * S, -2.0)];
+                let r = guard(|| crate::c10::run_real(kind, &h, 0, u));
+                let refr = guard(|| crate::c10::run_real(kind, &h, 0, crate::c10::natural_unit(kind)));
+                if r.is_err() || r != refr {
+                    e.violation("unchecked:to-state-converter", 1, || format!("{} with unit ({},{}): {:?}", crate::c10::KINDS[kind], m1, s1, r.as_ref().err()));
+                }
+            }
+        }
+    }
+    e.sample(|| "Quantity(1.5 mm^2/s) + Quantity(-0.25 s^3) = 1.25, no panic; set_constant_velocity(4.5 s^-2) -> Ok".to_string());
+}
+
 pub fn run(_ctx: &Ctx) -> Vec<Eng> {
-    vec![]
+    let cfgname = format!(
+        "{}{}",
+        if cfg!(feature = "std") { "std" } else if cfg!(feature = "libm") { "libm" } else { "micromath" },
+        if cfg!(feature = "dimcheck") { "" } else { "-nocheck" }
+    );
+    let mut e = Eng::new(
+        &format!("c19-trace[{}]", cfgname),
+        "canonical traces (outcome categories, f32 values with -0 == +0 and all NaNs equal, i64 times) of well-dimensioned workloads: quantity arithmetic on the 49 grid units x 8x8 values, Time/integer conversions, State update/setters/Command conversions (8^3 states x 7 intervals), PIDControllerStream (all 12^3 and 14^3 histories x 4 gain sets), 15 stateful streams (all 5^4 histories), integral/derivative/to-state (18^3, 14^3), CommandPID (12^3 x 3), moving average and EWMA (14^3 x 8), exponent stream, motion profiles (every 7th grid profile x ~25 instants), devices (state and command rounds); one trace file per section, compared across the six builds by the driver; non-trivial = every case (each exercises real arithmetic)",
+        "see rule",
+    );
+    let dir = std::env::var("VERIF_C19_DIR").unwrap_or_else(|_| "/tmp".to_string());
+    for s in sections() {
+        let text = s.lines.join("\n");
+        let path = format!("{}/{}.{}.trace", dir, cfgname, s.name.replace(':', "_"));
+        std::fs::write(&path, &text).expect("cannot write trace file");
+        e.executions += s.lines.len() as u64;
+        e.states += s.lines.len() as u64;
+        e.transitions += s.lines.len() as u64;
+        e.nontrivial += s.lines.len() as u64;
+        e.outcome(h64(&text));
+        e.count(&format!("cases:{}", s.name), s.lines.len() as i128);
+        let panics = s.lines.iter().filter(|l| l.contains("=> PANIC")).count();
+        if panics > 0 {
+            let first = s.lines.iter().find(|l| l.contains("=> PANIC")).unwrap().clone();
+            e.violation(&format!("config[{}]:{}:panic-in-well-dimensioned-workload", cfgname, s.name), 1, || format!("{} case(s) panicked, first: {}", panics, first));
+        }
+        e.sample(|| format!("{}: {}", s.name, s.lines.get(s.lines.len() / 2).cloned().unwrap_or_default().chars().take(160).collect::<String>()));
+    }
+    let mut v = vec![e];
+    #[cfg(not(feature = "dimcheck"))]
+    {
+        let mut e2 = Eng::new(
+            &format!("c19-unchecked[{}]", cfgname),
+            "dimension checking compiled out: all 49x49 unit pairs through + - += -= partial_cmp < > and Unit+Unit (never a panic, values = plain f32 arithmetic); for all 49 units: the three State setters, State::new, Time/DimensionlessInteger try_from, GearTrain::with_ratio, the three to-state converters (never a rejection, never a panic, same numbers as with the right unit); non-trivial = the units differ",
+            "2401 pairs + 49 x 5",
+        );
+        ill_dimensioned(&mut e2);
+        v.push(e2);
+    }
+    v
 }
